@@ -9,7 +9,7 @@ HOOKS = dict(
     add_only=True,
 )
 ENGINES = [
-    dict(name="kani-harnesses", path="/verif/vk/kani_unit.py", serves_properties=["C01", "C02", "C06", "C08", "C09", "C12"],
+    dict(name="kani-harnesses", path="/verif/vk/kani_unit.py", serves_properties=["C01", "C02", "C06", "C07", "C08", "C09", "C12"],
          kind_free_text="cargo kani on the real crate; harness files /verif/kani/*_proofs.rs are compiled into the defining modules through cfg(kani) hooks; "
                         "loop-free full-domain harnesses are complete, harnesses with symbolic strings are bounded stand-ins and never counted as proved"),
     dict(name="verus-units", path="/verif/vk/verus_unit.py", serves_properties=["C01", "C02", "C03", "C05", "C06", "C07", "C08", "C09", "C10", "C12", "C13", "C15", "C16", "C17", "C19", "C20"],
@@ -222,7 +222,7 @@ CHECKS = {
 
 NOT_APPLICABLE = {
     "C04": "Convergence quantifies over message delivery orders between 2-3 processes; no contract on one call can state it and the code that forwards/fans out is the dyn-Fn dispatcher and async loops neither verifier accepts.",
-    "C11": "Crash points of a writer are not expressible as pre/postconditions of a call; neither verifier has a crash-consistent file model.",
+    "C11": "The statement quantifies over kill instants INSIDE the writes of a snapshot: the unit of durability is the flush of three independent 250-byte BufWriters, which cuts records at arbitrary byte boundaries, next to unbuffered in-place overwrites. A crash invariant at the granularity of whole file operations IS expressible with contracts (it is what unit oplogflag proves for C16), but here it would not be the property: between flushes the on-disk image is a byte-level interleaving no per-call contract of these functions describes, and by reading the current code does not keep the stated guarantee at that granularity (DESIGN section 10, observation b: an in-place key update can name a value record that is still in a buffer). Claiming it would mean a model of the OS write path, not contracts on this code.",
     "C14": "A bound on inter-node traffic is a global ranking argument over the dispatcher and the replication loop on several nodes.",
     "C18": "Both S3 strategies are async AWS-SDK network code inside a tokio runtime.",
 }
